@@ -113,3 +113,16 @@ def _get_class_tag(eng, st, o, args, kw, node):
 def _pd_interval(eng, st, args, kw, node):
     closed = kw.get("closed", args[2] if len(args) > 2 else "right")
     return [(st, Opaque("interval", (args[0], args[1], closed)))]
+
+
+# ----------------------------------------------------------------------------- pandas glue (assumed): frames are modelled by their 2-D values
+@external("pandas.Series")
+def _pd_series(eng, st, args, kw, node):
+    eng.note_assumption("pandas: pd.Series(values, index=..., name=...) holds exactly `values` (positionally)")
+    return [(st, Opaque("series", args[0]))]
+
+
+@external("pandas.DataFrame")
+def _pd_dataframe(eng, st, args, kw, node):
+    eng.note_assumption("pandas: pd.DataFrame(values, columns=[..], dtype=..) holds exactly `values` (positionally)")
+    return [(st, Opaque("frame", args[0] if args else kw))]
